@@ -44,22 +44,22 @@ type outcome struct {
 }
 
 type vecCase struct {
-	Fam  string          `json:"fam"`
-	What string          `json:"what"`
-	S    *cz.Schema      `json:"s"`
-	Op   string          `json:"op"`
-	Arg  *cz.Value       `json:"arg"`
-	Exp  outcome         `json:"exp"`
-	Mod  outcome         `json:"mod"`
-	Sub  []subNode       `json:"sub"`
-	Wire outcome         `json:"wire"` // chain vectors: the model's serialized form
+	Fam  string     `json:"fam"`
+	What string     `json:"what"`
+	S    *cz.Schema `json:"s"`
+	Op   string     `json:"op"`
+	Arg  *cz.Value  `json:"arg"`
+	Exp  outcome    `json:"exp"`
+	Mod  outcome    `json:"mod"`
+	Sub  []subNode  `json:"sub"`
+	Wire outcome    `json:"wire"` // chain vectors: the model's serialized form
 	// path vectors (C17)
-	Good  *cz.Value `json:"good"`
-	Path  []string  `json:"path"`
-	Fault string    `json:"fault"`
-	Key   string    `json:"key"`
-	Emb  string          `json:"emb,omitempty"` // replay: restrict to one embedding
-	Raw  json.RawMessage `json:"-"`
+	Good  *cz.Value       `json:"good"`
+	Path  []string        `json:"path"`
+	Fault string          `json:"fault"`
+	Key   string          `json:"key"`
+	Emb   string          `json:"emb,omitempty"` // replay: restrict to one embedding
+	Raw   json.RawMessage `json:"-"`
 }
 
 // subNode: declared outcome of one element below a container argument (SchemaDecl!Sub).
@@ -687,75 +687,89 @@ func runVector(c *vecCase) *resT {
 			unitVariants(c, e, arg, r)
 		}
 		ran = true
-		type entry struct {
-			name string
-			out  callOut
+		// a native struct value with empty list / map fields has a second concretisation: those fields left nil
+		args := []any{arg}
+		if c.Op == "valid" || c.Op == "ser" {
+			if nv, ok := cz.NilContainerVariant(c.Arg); ok {
+				if arg2, err := cz.ToGo(nv, e); err == nil {
+					args = append(args, arg2)
+				}
+			}
 		}
-		entries := []entry{{"untyped", callUntyped(b.Type, c.Op, arg)}}
-		if b.Typed != nil && c.Op != "compat" {
-			if o := callTyped(b.Typed, c.Op, arg); !o.NA {
-				entries = append(entries, entry{"typed", o})
+		for variant, arg := range args {
+			type entry struct {
+				name string
+				out  callOut
 			}
-		}
-		untypedDiv := ""
-		for _, en := range entries {
-			r.Runs++
-			o := en.out
-			base := func(div string) (map[string]any, map[string]any) {
-				kind, class := locate(c, b, e, div)
-				sig := map[string]any{"op": c.Op, "entry": en.name, "kind_at_fault": kind, "arg_class": class, "divergence": div}
-				det := map[string]any{"emb": e.Name, "go_arg": fmt.Sprintf("%#v", arg), "decodable": c.Arg.Decodable()}
-				return sig, det
-			}
-			if o.Panic != nil {
-				if en.name == "untyped" {
-					untypedDiv = "panic"
-				} else if untypedDiv == "panic" {
-					continue // the typed entry point delegates: same defect
-				}
-				sig, det := base("panic")
-				sig["frame"] = o.Panic.Frame
-				det["panic"] = o.Panic.Msg
-				r.miss(sig, det)
-				continue
-			}
-			div, d, inexp := judge(o, c.Op, c.Exp, e, c.S)
-			if inexp {
-				r.Inexpressible++
-			}
-			if div == "" {
-				if msg, ok := bigAmountCheck(c, o); !ok {
-					div, d = "value", map[string]any{"math_big": msg}
+			entries := []entry{{"untyped", callUntyped(b.Type, c.Op, arg)}}
+			if b.Typed != nil && c.Op != "compat" {
+				if o := callTyped(b.Typed, c.Op, arg); !o.NA {
+					entries = append(entries, entry{"typed", o})
 				}
 			}
-			if en.name == "untyped" {
-				untypedDiv = div
-			} else if div != "" && div == untypedDiv {
-				continue // the typed entry point delegates: same defect
-			}
-			if div != "" {
-				sig, det := base(div)
-				for k, v := range d {
-					det[k] = v
+			untypedDiv := ""
+			for _, en := range entries {
+				r.Runs++
+				o := en.out
+				base := func(div string) (map[string]any, map[string]any) {
+					kind, class := locate(c, b, e, div)
+					sig := map[string]any{"op": c.Op, "entry": en.name, "kind_at_fault": kind, "arg_class": class, "divergence": div}
+					det := map[string]any{"emb": e.Name, "go_arg": fmt.Sprintf("%#v", arg), "decodable": c.Arg.Decodable()}
+					if variant == 1 {
+						det["variant"] = "empty list / map fields of the struct left nil (never assigned)"
+					}
+					return sig, det
 				}
-				if div == "value" && c.Op == "unser" && c.Exp.V != nil && o.Err == nil {
-					if got, err := cz.FromGoS(o.Val, e, c.S); err == nil {
-						if k := valueFault(c.S, c.Exp.V, got, nil); k != "" {
-							sig["kind_at_fault"] = k
-						}
+				if o.Panic != nil {
+					if en.name == "untyped" {
+						untypedDiv = "panic"
+					} else if untypedDiv == "panic" {
+						continue // the typed entry point delegates: same defect
+					}
+					sig, det := base("panic")
+					sig["frame"] = o.Panic.Frame
+					det["panic"] = o.Panic.Msg
+					r.miss(sig, det)
+					continue
+				}
+				div, d, inexp := judge(o, c.Op, c.Exp, e, c.S)
+				if inexp {
+					r.Inexpressible++
+				}
+				if div == "" {
+					if msg, ok := bigAmountCheck(c, o); !ok {
+						div, d = "value", map[string]any{"math_big": msg}
 					}
 				}
-				r.miss(sig, det)
-				continue
-			}
-			// agreement with the statement; model detail beyond it is drift
-			if mdiv, md, _ := judge(o, c.Op, c.Mod, e, c.S); mdiv != "" {
-				sig, det := base(mdiv)
-				sig["drift"] = true
-				for k, v := range md {
-					det[k] = v
+				if en.name == "untyped" {
+					untypedDiv = div
+				} else if div != "" && div == untypedDiv {
+					continue // the typed entry point delegates: same defect
 				}
-				r.miss(sig, det)
+				if div != "" {
+					sig, det := base(div)
+					for k, v := range d {
+						det[k] = v
+					}
+					if div == "value" && c.Op == "unser" && c.Exp.V != nil && o.Err == nil {
+						if got, err := cz.FromGoS(o.Val, e, c.S); err == nil {
+							if k := valueFault(c.S, c.Exp.V, got, nil); k != "" {
+								sig["kind_at_fault"] = k
+							}
+						}
+					}
+					r.miss(sig, det)
+					continue
+				}
+				// agreement with the statement; model detail beyond it is drift
+				if mdiv, md, _ := judge(o, c.Op, c.Mod, e, c.S); mdiv != "" {
+					sig, det := base(mdiv)
+					sig["drift"] = true
+					for k, v := range md {
+						det[k] = v
+					}
+					r.miss(sig, det)
+				}
 			}
 		}
 	}
@@ -766,18 +780,18 @@ func runVector(c *vecCase) *resT {
 // ---------------------------------------------------------------------------- bind checks
 
 type bindCase struct {
-	What   string               `json:"what"`
-	Toks   []json.RawMessage    `json:"toks"`
-	Dec    [][]json.RawMessage  `json:"dec"`
-	FTok   [][]json.RawMessage  `json:"ftok"`
-	IMax   int64                `json:"imax"`
-	IMin   int64                `json:"imin"`
-	SymLen int64                `json:"symlen"`
+	What    string              `json:"what"`
+	Toks    []json.RawMessage   `json:"toks"`
+	Dec     [][]json.RawMessage `json:"dec"`
+	FTok    [][]json.RawMessage `json:"ftok"`
+	IMax    int64               `json:"imax"`
+	IMin    int64               `json:"imin"`
+	SymLen  int64               `json:"symlen"`
 	Layouts map[string]struct {
 		Recv   string          `json:"recv"`
 		Fields []catalog.Field `json:"fields"`
 	} `json:"layouts"`
-	Cases  []cz.TransportCase   `json:"cases"`
+	Cases []cz.TransportCase `json:"cases"`
 }
 
 func checkStrings(b *bindCase) string {
